@@ -34,6 +34,12 @@ DEFAULT_ASSUMPTIONS = [
 _EXPECT = None
 
 
+# Rules whose number of obligations follows how often the source repeats a statement (the pinned make_segmentation spells the
+# duplicate-run adjustment four times, once per `if constexpr` arm and once more for the chunk tail): a clean-up that folds the
+# copies legitimately produces fewer.  Their floor is the number of *kinds* of site the rule needs to see, not 70% of the count.
+STRUCTURAL_FLOORS = {'RANK-AGREE': 2, 'GAP-GUARD': 1}
+
+
 def expect_for(prop):
     global _EXPECT
     if _EXPECT is None:
@@ -120,7 +126,7 @@ def rules_c01(ctx):
     G = p_segmentation
     return (S.rule_range_form(ctx, 'pgm', ctx.units) + S.rule_agree_eps(ctx, 'pgm', ctx.units) + S.rule_clamp(ctx, 'pgm', ctx.units) +
             S.rule_kind_pgm(ctx, ctx.units) + S.rule_keydiff_type(ctx, ctx.units) +
-            [o for o in G.rule_rank_agree(ctx) if o.rule == 'RANK-AGREE'] + [o for o in G.rule_omp_order(ctx) if o.arm == 'last-chunk'] + G.rule_key_arith(ctx) + S.rule_upper_level_sentinel(ctx, 'pgm', ctx.units))
+            [o for o in G.rule_rank_agree(ctx) if o.rule == 'RANK-AGREE'] + G.rule_index_cover(ctx) + [o for o in G.rule_omp_order(ctx) if o.arm == 'last-chunk'] + G.rule_key_arith(ctx) + S.rule_upper_level_sentinel(ctx, 'pgm', ctx.units))
 
 
 def rules_c02(ctx):
@@ -171,6 +177,7 @@ PROPS['C01'] = {
         'KIND: every routing step of segment_for_key (EpsilonRecursive == 0, linear scan, binary search) ends in LAST_LE(key) and that result is returned',
         'TYPE: the key difference in Segment::operator() is evaluated in an unsigned, floating or wider-than-K type for every key type',
         'RANK-AGREE: every constraint point fed to the builder is a key at its own index (first-occurrence rank) or one of the two successor points; the last chunk of the parallel builder ends at n; KEY-ARITH: no key-key difference in a signed same-width type',
+        'INDEX-COVER: every rank of a chunk that is not a duplicate of its predecessor reaches an add_point(in(k), k) site - decided on an abstract model of the segmentation driver (chunk bounds, loop bounds and breaks, duplicate pattern), so a key that is never fed to the builder (and therefore carries no epsilon guarantee) is found whatever the loop looks like',
     ],
     'not_decided': _SEARCH_ND,
     'explanation': 'Clause-level static claim for C01: five structural necessary conditions of "the first occurrence lies in the returned range", decided for every instantiated configuration of PGMIndex/MappedPGMIndex.',
@@ -386,6 +393,7 @@ PROPS['C17'] = {
         'SELECT-RANGE: EliasFanoPGMIndex::pred() hands ef.high_0_select a rank within the number of buckets on every path (the beyond-universe guard covers the incremented value)',
         'BACK-GUARD: front()/back() of a member container in a query only under an emptiness test or a recorded constructor invariant; SENTINEL-EXCLUDED (Elias-Fano constructor)',
         'ITER-INVALIDATION: no single-definition iterator into a std::vector is read after a push_back/emplace_back/insert/resize/reserve/erase/clear of that vector that its definition reaches (re-definitions respected), and no closure holding such an iterator is passed to a call together with a closure that grows the vector',
+        'IN-RANGE: every read in(e) of the segmentation driver has 0 <= e < n on every path that reaches it, including the operand order of its own condition (abstract model of the driver: all chunk lengths, followed or not by more data, every duplicate pattern)',
     ],
     'not_decided': 'memory safety of the unchecked scans as a whole: it rests on numeric invariants (predictions within the window, intercepts <= n, top_level[j+1], ef.low[...] and loser-tree indices) that no static argument in reach bounds',
     'explanation': 'Clause-level static claim for C17: the structural part of memory safety (end-guards, sentinels, clamps and caps); out-of-bounds accesses that depend on numeric invariants are not claimed.',
